@@ -62,16 +62,41 @@ def check_cfg(acc: Acc, cfg: Cfg, horizon: int) -> None:
     ids_before = {id(r) for r in rule_objects(spec)}
     dec = env.Decisions()
     clock = env.VirtualClock(dec, slice_default=0, horizon=200)
-    with env.seams(clock=clock, dec=dec):
+    # every expansion must use the pack that the verification strategy of *that* class offers
+    # for *that* class (observed at the call of expand_comb_class)
+    from comb_spec_searcher import CombinatorialSpecification as _CS
+
+    orig_ecc = _CS.expand_comb_class
+    wrong_pack: List[str] = []
+
+    def ecc(self_, comb_class, pack, *a, **kw):
         try:
+            cc = self_.get_comb_class(comb_class) if isinstance(comb_class, int) else comb_class
+            want = self_.rules_dict[cc].pack()
+            acc.count("expansions_observed")
+            if not (pack == want):
+                wrong_pack.append(f"{cc.sid()} expanded with pack {pack.name!r}, its verification strategy offers {want.name!r}")
+        except Exception:  # noqa: BLE001
+            pass
+        return orig_ecc(self_, comb_class, pack, *a, **kw)
+
+    _CS.expand_comb_class = ecc
+    try:
+        with env.seams(clock=clock, dec=dec):
             with deadline(120):
                 new = spec.expand_verified()
-        except Timeout:
-            acc.violation("does-not-finish", "CombinatorialSpecification.expand_verified", where, "no result within the horizon", payload)
-            return
-        except Exception as e:  # noqa: BLE001
-            acc.violation("exception", call_site(e), where, f"expand_verified: {type(e).__name__}: {str(e)[:200]}", payload)
-            return
+    except Timeout:
+        acc.violation("does-not-finish", "CombinatorialSpecification.expand_verified", where, "no result within the horizon", payload)
+        return
+    except Exception as e:  # noqa: BLE001
+        if wrong_pack:
+            acc.violation("wrong-pack", "CombinatorialSpecification.expand_verified", where, wrong_pack[0], payload)
+        acc.violation("exception", call_site(e), where, f"expand_verified: {type(e).__name__}: {str(e)[:200]}", payload)
+        return
+    finally:
+        _CS.expand_comb_class = orig_ecc
+    if wrong_pack:
+        acc.violation("wrong-pack", "CombinatorialSpecification.expand_verified", where, wrong_pack[0], payload)
     try:
         left = list(new.unexpanded_verified_classes())
         if left:
@@ -103,6 +128,42 @@ def check_cfg(acc: Acc, cfg: Cfg, horizon: int) -> None:
     except Exception as e:  # noqa: BLE001
         acc.violation("exception", call_site(e), where, f"using the result: {type(e).__name__}: {str(e)[:200]}", payload)
         return
+    # one class expanded through expand_comb_class itself, named by its label and by an equal
+    # but distinct class object: the class must no longer be verified in the result
+    from comb_spec_searcher.exception import SpecificationNotFound
+
+    for c in expandable[:2]:
+        try:
+            twin = type(c).from_dict(c.to_jsonable())
+            names = [("label", spec.get_label(c)), ("equal class object", twin)]
+        except Exception:  # noqa: BLE001
+            break
+        for how, name in names:
+            acc.count("evaluations")
+            with env.seams(clock=clock, dec=dec):
+                try:
+                    with deadline(120):
+                        pack = spec.rules_dict[c].pack()
+                        try:
+                            one = spec.expand_comb_class(name, pack, reverse=False, continue_expanding_verified=False)
+                        except SpecificationNotFound:
+                            acc.count("single_expansions_needing_reverse_rules")
+                            continue
+                except Timeout:
+                    acc.violation("does-not-finish", "CombinatorialSpecification.expand_comb_class", where, f"{c.sid()} named by its {how}", payload)
+                    continue
+                except Exception as e:  # noqa: BLE001
+                    acc.violation("exception", call_site(e), where, f"expand_comb_class({how}) of {c.sid()}: {type(e).__name__}: {str(e)[:200]}", payload)
+                    continue
+            try:
+                still = c in set(one.unexpanded_verified_classes())
+                if still:
+                    acc.violation("verified-class-left", "CombinatorialSpecification.expand_comb_class", where,
+                                  f"{c.sid()} named by its {how}: the result still holds the verification rule of the class it was asked to expand", payload)
+                for p in count_problems(one, start, N)[:1]:
+                    acc.violation("expanded-specification-invalid", "CombinatorialSpecification.expand_comb_class", where, f"{c.sid()} named by its {how}: {p}", payload)
+            except Exception as e:  # noqa: BLE001
+                acc.violation("exception", call_site(e), where, f"using the result of expand_comb_class({how}): {type(e).__name__}: {str(e)[:200]}", payload)
     acc.nt((where, sig_before))
     acc.outcome((len(expandable), spec.root in expandable, len(new.rules_dict) - len(spec.rules_dict) > 0))
 
